@@ -174,6 +174,37 @@ def _der_sig(r, s, hash_type=1):
     return b'\x30' + bytes([len(body)]) + body + bytes([hash_type])
 
 
+@contract('bitcoinlib.encoding.der_encode_sig', case='strict-der-native', props=('C13',))
+class der_encode_sig_native:
+    """The DER encoder the library hands every produced signature to (third-party DEREncoder / ecdsa.der, outside the modelled subset, hence native
+    evaluation only - bounded, not proved): for 1 <= r, s < n the result is exactly the strict-DER (BIP66) encoding 30 len 02 len r 02 len s with
+    minimal big-endian integers (a leading zero byte only when the top bit is set), as built by the independent encoder above; and
+    convert_der_sig maps it back to r || s as 2 x 32 bytes."""
+    params = {'r': Int(1, N - 1), 's': Int(1, N - 1)}
+    native_only = True
+    bounded = 'r, s random in [1, n-1] plus widths that move the sign byte / leading-zero boundary (top bit set or clear, 1..32 significant bytes)'
+
+    def build(r, s):
+        from bitcoinlib.encoding import der_encode_sig, convert_der_sig
+
+        def run():
+            d = der_encode_sig(r, s)
+            return (bytes(d), convert_der_sig(d, as_hex=False))
+        return run, [], {}
+
+    def ensures(r, s, result):
+        return result == (_der_sig(r, s)[:-1], r.to_bytes(32, 'big') + s.to_bytes(32, 'big'))
+
+    def sample(rng):
+        def pick():
+            k = rng.random()
+            if k < 0.4:
+                return rng.randrange(1, N)
+            bits = rng.choice([1, 7, 8, 9, 15, 16, 127, 128, 129, 247, 248, 249, 255, 256])
+            return max(1, min(N - 1, rng.randrange(2 ** (bits - 1), 2 ** bits)))
+        return {'r': pick(), 's': pick()}
+
+
 @contract('bitcoinlib.keys.Signature.parse_bytes', case='der-native', props=('C13',))
 class parse_der_native:
     """DER + hash type signatures (native evaluation only: the DER decoder is third-party code outside the modelled subset): a well-formed
